@@ -188,20 +188,19 @@ func (cc *clientConn) RoundTrip(req *http.Request) (_ *http.Response, err error)
 				if err := rt.maybeCallGot1xxResponse(statusCode, h); err != nil {
 					return nil, err
 				}
-				switch statusCode {
-				case 100:
+				if statusCode == 100 {
 					rt.maybeCallGot100Continue()
 					if is100ContinueReq && !bodyAndTrailerWritten {
 						bodyAndTrailerWritten = true
 						go cc.writeBodyAndTrailer(rt, req)
-						continue
 					}
-					// If we did not send "Expect: 100-continue" request but
-					// received status 100 anyways, just continue per usual and
-					// let the caller decide what to do with the response.
-				default:
-					continue
 				}
+				// An informational response is never the final one, also
+				// a 100 that we did not ask for: "A client MUST be able to
+				// parse one or more 1xx responses received prior to a final
+				// response, even if the client does not expect one."
+				// https://www.rfc-editor.org/rfc/rfc9110#section-15.2-3
+				continue
 			}
 
 			// We have the response headers.
